@@ -31,7 +31,11 @@
 (*          fork, i.e. it does not exist below the common ancestor (forkc) *)
 (*   fault  none | dial | cutBk / cutAk (message k cut: the sender's write *)
 (*          fails / succeeds but the message is lost) | mK<what> (message  *)
-(*          K corrupted) | bcast (the host's broadcast fails)              *)
+(*          K corrupted) | bcast (the host's broadcast fails) | wcloseK    *)
+(*          (the host's wallet is shut down while message K is in flight:  *)
+(*          funding, signing, releasing and broadcasting a set that is     *)
+(*          already negotiated do not depend on the wallet's background    *)
+(*          work, so the design -- and the exchange -- is unaffected)      *)
 (*                                                                         *)
 (* Wallet outputs reserved for attempt i are the token i in rRes / hRes;   *)
 (* the contract of attempt i is the token i in hCon (host's contractor),   *)
